@@ -547,6 +547,18 @@ func c15PatternLiteral(c *Check, a *Anchors) {
 	c.Decide(splitOnStar && raw == "" && nQuoted > 0 && nCompile == 1, "pattern-literal", "quoted-parts@"+name, fb.Decl.Pos(), "only QuoteMeta'd pieces of the name (and constants) reach the regexp compiler",
 		fmt.Sprintf("the task name reaches the regexp compiler unquoted (split on '*': %v, unquoted piece: %q, QuoteMeta'd pieces: %d): '.', '(', '+' ... in a task name are interpreted as regexp syntax (wrong matches, or a panic in MustCompile)", splitOnStar, raw, nQuoted))
 	c.Decide(anchored, "pattern-literal", "anchored@"+name, fb.Decl.Pos(), "pattern is ^...$", "the pattern is no longer anchored with ^ and $")
+	// the group a '*' becomes: any run of characters, the empty one included (`start-*` matches `start-`)
+	groupOK, grp := false, ""
+	for _, k := range consts {
+		if strings.HasPrefix(k, "(") && !strings.HasPrefix(k, "(?") {
+			grp = k
+			groupOK = k == "(.*)" || k == `([\s\S]*)` || k == "(.*?)"
+			if !groupOK {
+				break
+			}
+		}
+	}
+	c.Decide(groupOK, "pattern-literal", "wildcard-matches-empty@"+name, fb.Decl.Pos(), "the wildcard group is `"+grp+"`", "the group a '*' is turned into is `"+grp+"`, not `(.*)`: a wildcard no longer matches every substring (the empty one: `start-*` must match `start-` with an empty .MATCH element), so a name falls through to a later pattern or to 'task not found'")
 	c.Decide(dotAll, "pattern-literal", "wildcard-matches-any-character@"+name, fb.Decl.Pos(), "the wildcard group matches every character (s flag)", "the wildcard is `.*` without the s flag: '*' does not match a newline, so it is not true that only '*' is special and every other character literal")
 	// a positive answer only after the regexp matched
 	f := NewFlow(c.P, fb, func(call *ast.CallExpr, obj types.Object) string {
@@ -592,7 +604,7 @@ func c15PatternLiteral(c *Check, a *Anchors) {
 		c.Decide(st.Has("called:regexp-match") && fromMatch, "pattern-literal", fmt.Sprintf("match-by-regexp#%d@%s", i+1, name), r.Pos(), "`true` is returned only after the anchored regexp matched; wildcards are its sub-matches",
 			"WildcardMatch can answer `true` on a path that did not consult the anchored regexp (or returns wildcards that are not its sub-matches): such a shortcut is not equivalent for overlapping prefix/suffix, so a wrong task matches")
 	}
-	c.Floor("pattern-literal", n+2, 3)
+	c.Floor("pattern-literal", n+3, 4)
 	// the regexp that is matched is compiled from the task's CURRENT name in this very call: a regexp kept in a field was
 	// compiled from the name the task had when it was stored (before Tasks.Merge gave an included task its namespace)
 	for call, l := range f.Labels {
@@ -768,7 +780,6 @@ func nilContradictions(c *Check, a *Anchors, rule string, pkgs []string) {
 	}
 	c.Floor(rule, n, 3)
 }
-
 
 // rxPiece: one component of a string expression — a constant, a value that went through regexp.QuoteMeta, or anything else.
 type rxPiece struct{ kind, text string }
